@@ -77,8 +77,7 @@ def discharged : List (String × String × String × String) := [
   ("taskfile/ast:NewIncludes", "nilelem", "range ‹[]*ast.IncludeElement›: ‹*ast.IncludeElement›.Key", "code: constructor arguments written in Go, not decoded input"),
   ("taskfile/ast:NewMatrix", "nilelem", "range ‹[]*ast.MatrixElement›: ‹*ast.MatrixElement›.Key", "code: same"),
   ("taskfile/ast:NewTasks", "nilelem", "range ‹[]*ast.TaskElement›: ‹*ast.TaskElement›.Key", "code: same"),
-  ("taskfile/ast:NewVars", "nilelem", "range ‹[]*ast.VarElement›: ‹*ast.VarElement›.Key", "code: same"),
-  ("task:Executor.runDeferred", "unchecked", "‹*task.Executor›.Compiler.GetVariables(‹*ast.Task›, ‹*task.Call›)", "repeat: runDeferred is only reached from RunTask after CompiledTask(call) succeeded, which ran the same GetVariables(origTask, call); the evaluation is deterministic given the dynamic-variable cache (sh: results are cached by directory and command text), so the error branch is not taken and the pointer is non-nil (Vars.ToCacheMap itself is NOT nil-safe)")]
+  ("taskfile/ast:NewVars", "nilelem", "range ‹[]*ast.VarElement›: ‹*ast.VarElement›.Key", "code: same")]
 
 def isDischarged (s : String × String × String) : Bool :=
   discharged.any (fun d => d.1 == s.1 && d.2.1 == s.2.1 && d.2.2.1 == s.2.2)
